@@ -134,6 +134,10 @@ def scope_of(resp):
     return sc.split(" ") if isinstance(sc, str) else list(sc)
 
 
+XCASES = []
+CCASES = []
+
+
 def exchange_flows(ctx, rng, n):
     old = sess.FIXED_AUTHZ
     sess.FIXED_AUTHZ = EXCH_AUTHZ
@@ -176,6 +180,17 @@ def exchange_flows(ctx, rng, n):
                            "got": scope_of(resp) if resp else None, "err": err}
                     hist.append(rec)
                     ctx.count("exchange:" + ("ok" if resp else "refused"))
+                    # model case for the scope decision (only refusals for scope reasons are modelled)
+                    wr = body.get("requested_token_type", "").endswith("refresh_token")
+                    desc = (err or {}).get("error_description", "")
+                    modelled = resp is not None or "Invalid requested scopes" in desc or "forbidden" in desc
+                    if modelled and not (use_refresh and "audience" in body):
+                        XCASES.append(("(%s, %s, %s, %s, %s)" % (
+                            sess.coq_strs(list(stok.scope)), "None" if not want else "(Some %s)" % sess.coq_strs(want),
+                            sess.coq_strs(allowed(rs, other)), sess.coq_bool(wr),
+                            "None" if resp is None else "(Some %s)" % sess.coq_strs(scope_of(resp))), rec))
+                    else:
+                        ctx.count("exchange:unmodelled-refusal")
                     if resp:
                         got = set(scope_of(resp))
                         if got - set(stok.scope):
@@ -246,6 +261,8 @@ def client_credentials_flows(ctx, rng, n):
             ctx.case_seen(rec, resp is not None)
             ctx.count("client_credentials:" + ("ok" if resp else "refused"))
             if resp:
+                CCASES.append(("(%s, %s)" % ("(Some %s)" % sess.coq_strs(rs.ctx.cdb[client]["allowed_scopes"]) if "allowed_scopes" in rs.ctx.cdb[client] else "None",
+                                           sess.coq_strs(scope_of(resp))), rec))
                 got = set(scope_of(resp))
                 if got - set(allowed(rs, client)):
                     ctx.violation("cc-beyond-configured", "client_credentials for %s returned %r beyond its configured %r"
@@ -283,6 +300,11 @@ def run(ctx):
     exchange_flows(ctx, ctx.rng, 12 if ctx.quick else 400)
     client_credentials_flows(ctx, ctx.rng, 8 if ctx.quick else 200)
     jwt_histories(ctx, ctx.rng, 6 if ctx.quick else 200)
+    imp = ["Lib.Base", "Lib.PyStr", "Model.ScopeFlows"]
+    ctx.coq_check_cases(imp, "list pystr * option (list pystr) * list pystr * bool * option (list pystr)", "chk_exchange", list(XCASES), shard=300, label="exchange")
+    ctx.coq_check_cases(imp, "option (list pystr) * list pystr", "chk_cc", list(CCASES), shard=300, label="cc")
+    del XCASES[:]
+    del CCASES[:]
 
 
 def replay(ctx, rp):
